@@ -289,7 +289,12 @@ func propC02(c c02Case) (ev.Outcome, error) {
 		return ev.Outcome{Classes: []string{"path_not_required"}}, nil
 	}
 	journal(c)
-	r, err := runExtract(e, c.Base, c.Path, data, wallBudget)
+	limit := wallBudget
+	explore := os.Getenv("C02_EXPLORE") != ""
+	if explore {
+		limit = 4 * time.Second
+	}
+	r, err := runExtract(e, c.Base, c.Path, data, limit)
 	if err != nil {
 		return ev.Outcome{}, err
 	}
@@ -335,6 +340,11 @@ func propC02(c c02Case) (ev.Outcome, error) {
 	if rpmShortTimeout.Load() && c.Extractor == "os/rpm" && r.Err != nil && strings.Contains(r.Err.Error(), "timed out parsing hash page") {
 		col.Excluded(classRPMCycle)
 		out.Classes = append(out.Classes, "rpm_cycle_excluded")
+		return out, nil
+	}
+	if explore && (r.TimedOut || r.Alloc > allocBudget) {
+		cj, _ := json.Marshal(c)
+		fmt.Printf("EXPLORE overrun %s: wall %v alloc %d MiB len %d\n  case: %s\n", c.Extractor, r.Dur, r.Alloc>>20, len(data), cj)
 		return out, nil
 	}
 	if r.TimedOut || r.Dur > wallBudget || r.Alloc > allocBudget {
